@@ -237,12 +237,41 @@ Fixpoint qexec (s : rcs) (ops : list word) : option (list word) :=
                end
   end.
 
+(* ---- kind 4: the fired-but-not-yet-locked window, forced on the real code ----
+   driver op [1;n]: n times { Add(k, timeout 1ms); lock c.mu from outside; start Remove(k) (it
+   queues on the mutex); wait until the timer has fired (its function queues behind Remove);
+   unlock }.  obs [v1; v2]: v1 = iterations where Remove returned true and the callback ran
+   anyway, v2 = iterations where the callback ran twice, or Remove returned false and the callback
+   did not run exactly once.  The model evaluates both possible lock orders on the fine-grained
+   steps. *)
+Definition win_viol (es : list ent) : Z * Z :=
+  fold_right (fun e acc =>
+    (fst acc + b2z ((1 <=? eret e) && ((0 <? ecb e) || epend e)),
+     snd acc + b2z ((1 <? ecb e) || ((eret e =? 0) && negb (ecb e =? 1))))) (0, 0) es.
+Definition win_remove_first : list xop := [XAdd 1 1 0; XFire 0; XRemove 1; XRun 0; XCb 0].
+Definition win_timer_first : list xop := [XAdd 1 1 0; XFire 0; XRun 0; XCb 0; XRemove 1].
+Definition wstep (op : word) : option word :=
+  match op with
+  | [1; n] =>
+    if n <? 0 then None else
+    let a := win_viol (xsteps [] win_remove_first) in
+    let b := win_viol (xsteps [] win_timer_first) in
+    Some [n * (fst a + fst b); n * (snd a + snd b)]
+  | _ => None
+  end.
+Fixpoint wexec (ops : list word) : option (list word) :=
+  match ops with
+  | [] => Some []
+  | op :: r => match wstep op with Some o => option_map (cons o) (wexec r) | None => None end
+  end.
+
 (* ================= run ================= *)
 Definition run (cfg : word) (ops : list word) : option (list word) :=
   match cfg with
   | [1; tmo] => if tmo <? 1 then None else cexec (mkcst [] 0 tmo) ops
   | [2] => eexec evs0 ops
   | [3] => qexec rcs0 ops
+  | [4] => wexec ops
   | _ => None
   end.
 
@@ -259,7 +288,9 @@ Definition run (cfg : word) (ops : list word) : option (list word) :=
     7 event: HasFired / Done-closed iff some Fire happened
     8 refcount (while the usage contract holds): TryIncrement succeeds iff the count is positive
     9 refcount (while the usage contract holds): onZero has run exactly once iff the count
-      reached zero, never twice *)
+      reached zero, never twice
+   10 cache, forced timer window: no callback for an entry that Remove handed out
+   11 cache, forced timer window: never twice; exactly once when Remove came too late *)
 Definition cl := (Z * Z * bool)%type.
 
 (* cache monitor: present entries (key, item, deadline) in insertion order; gone = items whose
@@ -350,11 +381,19 @@ Fixpoint clauses3 (m : mon3) (ops obs : list word) : list cl :=
   | _, _ => [(0, 0, false)]
   end.
 
+Fixpoint clauses4 (ops obs : list word) : list cl :=
+  match ops, obs with
+  | [1; n] :: r, [v1; v2] :: r' => (10, n, v1 =? 0) :: (11, n, v2 =? 0) :: clauses4 r r'
+  | [], [] => []
+  | _, _ => [(0, 0, false)]
+  end.
+
 Definition clauses (cfg : word) (ops obs : list word) : list cl :=
   match cfg with
   | [1; tmo] => clauses1 (mkm1 [] [] 0 tmo) ops obs
   | [2] => clauses2 false ops obs
   | [3] => clauses3 (mkm3 1 true) ops obs
+  | [4] => clauses4 ops obs
   | _ => [(0, 0, false)]
   end.
 Definition holds_b (cfg : word) (ops obs : list word) : bool :=
@@ -373,10 +412,12 @@ Fixpoint wf1 (seen : list Z) (ops : list word) : bool :=
   | _ => false
   end.
 Definition op_wf2 (op : word) : bool := match op with [1] | [2] | [3] => true | _ => false end.
+Definition op_wf4 (op : word) : bool := match op with [1; n] => 0 <=? n | _ => false end.
 Definition wf (cfg : word) (ops : list word) : bool :=
   match cfg with
   | [1; tmo] => (1 <=? tmo) && wf1 [] ops
   | [2] => forallb op_wf2 ops
   | [3] => forallb op_wf2 ops
+  | [4] => forallb op_wf4 ops
   | _ => false
   end.
